@@ -2,6 +2,8 @@
 package cluster
 
 import (
+	"mosn.io/pkg/variable"
+	"math/rand"
 	"context"
 	"net"
 
@@ -55,17 +57,25 @@ func VerifC12_ClusterHosts() {
 	verif.Replace("mosn.io/mosn/pkg/upstream/cluster.newClusterStats", func(string) *types.ClusterStats { return &types.ClusterStats{} })
 	// address pre-resolution (net.ResolveTCPAddr: resolver I/O) is not the subject
 	verif.Replace("mosn.io/mosn/pkg/upstream/cluster.GetOrCreateAddr", func(string) net.Addr { return nil })
+	verif.Replace("math/rand.NewSource", func(int64) rand.Source { return zzAnySource{} })
 	configmanager.Reset()
 	cm := &clusterManager{protocolConnPool: newConnPool(false)}
 	steps := verif.Param("cmsteps", 3, 4)
 	exists := false
 	var model []string // addresses the live cluster must serve, in order
 	maxReq := uint32(0)
+	// circuit breaker thresholds of the successive cluster updates: set, removed, set to another value
+	thresholds := []uint32{2, 0, 5, 0}
+	maxConn := uint32(0)
 	for s := 0; s < steps; s++ {
 		switch verif.Choose("op", 6) {
 		case 0: // CDS add/update; inline hosts in the config are not what the cluster serves
 			maxReq = uint32(s + 1)
 			c := v2.Cluster{Name: "c", LbType: v2.LB_ROUNDROBIN, MaxRequestPerConn: maxReq, Hosts: zzHostCfgs(verif.Choose("inline_hosts", 2) * 4)}
+			maxConn = thresholds[s%len(thresholds)]
+			if maxConn > 0 {
+				c.CirBreThresholds = v2.CircuitBreakers{Thresholds: []v2.Thresholds{{MaxConnections: maxConn, MaxRequests: maxConn}}}
+			}
 			verif.Assert(cm.AddOrUpdatePrimaryCluster(c) == nil, "cluster update refused")
 			if !exists {
 				model = nil
@@ -75,6 +85,10 @@ func VerifC12_ClusterHosts() {
 			maxReq = uint32(s + 1)
 			mask := 1 + verif.Choose("hosts", 3)
 			c := v2.Cluster{Name: "c", LbType: v2.LB_ROUNDROBIN, MaxRequestPerConn: maxReq, Hosts: zzHostCfgs(mask)}
+			maxConn = thresholds[s%len(thresholds)]
+			if maxConn > 0 {
+				c.CirBreThresholds = v2.CircuitBreakers{Thresholds: []v2.Thresholds{{MaxConnections: maxConn, MaxRequests: maxConn}}}
+			}
 			verif.Assert(cm.AddOrUpdateClusterAndHost(c, zzHostCfgs(mask)) == nil, "cluster update refused")
 			model = nil
 			for _, h := range zzHostCfgs(mask) {
@@ -138,6 +152,13 @@ func VerifC12_ClusterHosts() {
 		if ok && exists {
 			verif.Assert(rec.MaxRequestPerConn == maxReq, "recorded cluster attributes are not those of the last update")
 			verif.Assert(snap.ClusterInfo().MaxRequestsPerConn() == maxReq, "live cluster attributes are not those of the last update")
+			rm := snap.ClusterInfo().ResourceManager()
+			verif.Assert(rm.Connections().Max() == uint64(maxConn) && rm.Requests().Max() == uint64(maxConn), "the live circuit breaker thresholds are not those of the last cluster update (a removed limit is still enforced, or a new one is not)")
+			recMax := uint32(0)
+			if len(rec.CirBreThresholds.Thresholds) > 0 {
+				recMax = rec.CirBreThresholds.Thresholds[0].MaxConnections
+			}
+			verif.Assert(recMax == maxConn, "the recorded circuit breaker thresholds are not those of the last cluster update")
 			same := len(rec.Hosts) == len(live)
 			for i := 0; same && i < len(live); i++ {
 				same = rec.Hosts[i].Address == live[i] && rec.Hosts[i].MetaData["version"] == liveMeta[i]
@@ -148,6 +169,19 @@ func VerifC12_ClusterHosts() {
 				okModel = model[i] == live[i]
 			}
 			verif.Assert(okModel, "live host list differs from what the update operations mean")
+			// a lookup through the cluster's balancer only ever returns a host the operations left in the cluster
+			h := snap.LoadBalancer().ChooseHost(&zzLBCtx{ctx: variable.NewVariableContext(context.Background())})
+			if len(model) == 0 {
+				verif.Assert(h == nil, "a lookup returned a host although the cluster has none")
+			} else {
+				in := false
+				for _, a := range model {
+					if h != nil && h.AddressString() == a {
+						in = true
+					}
+				}
+				verif.Assert(in, "a lookup returned a host that was removed from the cluster (or none although hosts exist)")
+			}
 		}
 	}
 	verif.Cover("end")
@@ -218,4 +252,13 @@ func VerifC05_LookupDuringClusterUpdate() {
 	}
 	verif.Settle()
 	verif.Cover("end")
+}
+
+// VerifC05_ClusterHosts: the same exploration counted for C05 - after any short
+// sequence of host-set updates (replace, append, removal of one or two
+// addresses, cluster update) a lookup returns only a member of the host set the
+// operations left behind.
+func VerifC05_ClusterHosts() {
+	VerifC12_ClusterHosts()
+	verif.Cover("c05")
 }
